@@ -71,148 +71,11 @@ static std::string param_text(const Config &c) {
   return o.str();
 }
 
-// ------------------------------------------------------------------ monitor
-
-struct Ledger {
-  std::unordered_map< long, int > alive; // key -> state (1 travelling, 2 waiting for re-emission)
-  long launched_primary = 0, launched_reemit = 0, terminated = 0;
-  long iter = -1, requested = -1;
-  int nthreads = 1;
-  long tasks_started = 0;
-  std::map< long, long > tasks_by_type;
-  std::vector< long > term_in_task, absorbed_in_task, relaunched_in_task, running_task;
-  long flush_tasks = 0;
-  long iterations_ended = 0;
-  std::string outcome;
-};
-static Ledger L;
-static bool g_expect_continuous = false;
-
-static void viol(const std::string &key, const std::string &detail) { e1::add_violation("C01:" + key, detail); }
-
-static void monitor(const e1::Event &e) {
-  const std::string w = e.what;
-  const int t = e.thread;
-  if (w == "iter_begin") {
-    L.alive.clear();
-    L.launched_primary = L.launched_reemit = L.terminated = 0;
-    L.iter = e.a;
-    L.requested = e.b;
-    L.nthreads = (int)e.c;
-    L.term_in_task.assign(L.nthreads, 0);
-    L.absorbed_in_task.assign(L.nthreads, 0);
-    L.relaunched_in_task.assign(L.nthreads, 0);
-    L.running_task.assign(L.nthreads, -1);
-    L.flush_tasks = 0;
-    L.tasks_by_type.clear();
-    if (L.iter > 0)
-      e1::mark_seen("second-iteration");
-  } else if (w == "task_start") {
-    ++L.tasks_started;
-    L.tasks_by_type[e.b]++;
-    if (t < (int)L.running_task.size()) {
-      if (L.running_task[t] != -1)
-        viol("task-overlap", fmt("thread %d starts task %ld while task %ld is running", t, e.a, L.running_task[t]));
-      for (int o = 0; o < (int)L.running_task.size(); ++o)
-        if (o != t && L.running_task[o] == e.a)
-          viol("task-twice", fmt("task slot %ld started by thread %d while thread %d runs it", e.a, t, o));
-      L.running_task[t] = e.a;
-      L.term_in_task[t] = L.absorbed_in_task[t] = L.relaunched_in_task[t] = 0;
-    }
-    if (e.b == TASKTYPE_FLUSH_CONTINUOUS_PHOTON_BUFFERS)
-      ++L.flush_tasks;
-    e1::mark_seen(fmt("tasktype-%ld", e.b));
-  } else if (w == "task_stop") {
-    if (t < (int)L.running_task.size())
-      L.running_task[t] = -1;
-  } else if (w == "pkt_launch") {
-    if (L.alive.count(e.a))
-      viol("ledger:launch-duplicate", fmt("packet %lx launched while alive (kind %ld, iteration %ld)", e.a, e.b, L.iter));
-    L.alive[e.a] = 1;
-    if (e.b == 2) {
-      ++L.launched_reemit;
-      if (t < (int)L.relaunched_in_task.size())
-        ++L.relaunched_in_task[t];
-      e1::mark_seen("re-emission");
-    } else {
-      ++L.launched_primary;
-      e1::mark_seen(e.b == 1 ? "continuous-launch" : "discrete-launch");
-    }
-  } else if (w == "pkt_stored") {
-    auto it = L.alive.find(e.a);
-    if (it == L.alive.end() || it->second != 1)
-      viol("ledger:stored-not-alive", fmt("packet %lx stored for direction %ld but is not travelling", e.a, e.b));
-    else if (e.b == 0)
-      it->second = 2; // absorbed, waits for the re-emission task
-  } else if (w == "pkt_term") {
-    auto it = L.alive.find(e.a);
-    if (it == L.alive.end() || it->second != 1)
-      viol("ledger:terminated-twice", fmt("packet %lx terminated (direction %ld) but is not travelling", e.a, e.b));
-    else
-      L.alive.erase(it);
-    ++L.terminated;
-    if (t < (int)L.term_in_task.size())
-      ++L.term_in_task[t];
-    e1::mark_seen(e.b == 0 ? "absorbed-final" : "escaped");
-  } else if (w == "pkt_absorbed") {
-    auto it = L.alive.find(e.a);
-    if (it == L.alive.end() || it->second != 2)
-      viol("ledger:reemit-not-absorbed", fmt("re-emission task handles packet %lx that is not waiting for it", e.a));
-    else
-      L.alive.erase(it);
-    if (t < (int)L.absorbed_in_task.size())
-      ++L.absorbed_in_task[t];
-  } else if (w == "traversal_done") {
-    if (t < (int)L.term_in_task.size() && e.a != L.term_in_task[t])
-      viol("accounting:traversal", fmt("traversal task adds %ld to the done count but terminated %ld packets", e.a, L.term_in_task[t]));
-  } else if (w == "reemit_done") {
-    if (t < (int)L.absorbed_in_task.size()) {
-      const long dropped = L.absorbed_in_task[t] - L.relaunched_in_task[t];
-      if (e.a != dropped)
-        viol("accounting:reemit", fmt("re-emission task adds %ld to the done count but dropped %ld packets", e.a, dropped));
-      L.terminated += dropped;
-      if (dropped > 0)
-        e1::mark_seen("not-re-emitted");
-    }
-  } else if (w == "iter_end") {
-    ++L.iterations_ended;
-    if (e.b != e.c)
-      viol("iteration-end:count", fmt("iteration %ld ended with %ld of %ld packets done", e.a, e.b, e.c));
-    if (L.terminated != e.c)
-      viol("iteration-end:ledger", fmt("iteration %ld: ledger saw %ld terminations for %ld requested packets", e.a, L.terminated, e.c));
-    if (L.launched_primary != e.c)
-      viol("iteration-end:launched", fmt("iteration %ld: %ld primary packets launched for %ld requested", e.a, L.launched_primary, e.c));
-    if (!L.alive.empty())
-      viol("iteration-end:alive", fmt("iteration %ld ended with %zu packets still alive", e.a, L.alive.size()));
-    if (g_expect_continuous && L.flush_tasks != L.nthreads)
-      viol("flush-once", fmt("iteration %ld: %ld flush tasks executed for %d thread blocks", e.a, L.flush_tasks, L.nthreads));
-    for (size_t i = 0; i < L.running_task.size(); ++i)
-      if (L.running_task[i] != -1)
-        viol("iteration-end:running", fmt("task %ld still running at the end of iteration %ld", L.running_task[i], e.a));
-    std::string byt;
-    for (auto &kv : L.tasks_by_type)
-      byt += fmt(" %ld:%ld", kv.first, kv.second);
-    L.outcome += fmt("[it%ld done=%ld/%ld reemit=%ld tasks%s]", e.a, e.b, e.c, L.launched_reemit, byt.c_str());
-  } else if (w == "premature_launch") {
-    e1::mark_seen("premature-launch");
-  } else if (w == "buffer_full") {
-    e1::mark_seen("buffer-full");
-  } else if (w == "leftover") {
-    if (e.a != 0)
-      viol("leftover:buffers", fmt("%ld photon buffers still active after iteration %ld", e.a, L.iter));
-    if (e.b != 0)
-      viol("leftover:tasks", fmt("%ld tasks still allocated after iteration %ld", e.b, L.iter));
-    if (e.c != 0)
-      viol("leftover:shared-queue", fmt("%ld entries left in the shared queue after iteration %ld", e.c, L.iter));
-  } else if (w == "queue_left") {
-    if (e.b != 0)
-      viol("leftover:thread-queue", fmt("%ld entries left in the queue of thread %ld after iteration %ld", e.b, e.a, L.iter));
-  } else if (w == "subgrid_buffer_left") {
-    viol("leftover:subgrid-buffer", fmt("subgrid %ld still has active buffer %ld for direction %ld after iteration %ld", e.a, e.c, e.b, L.iter));
-  } else if (w == "continuous_buffer_left") {
-    viol("leftover:continuous-buffer", fmt("continuous buffer (%ld,%ld) still holds %ld packets after iteration %ld", e.a, e.b, e.c, L.iter));
-  }
-}
+#include "c01_ledger.hpp"
+using c01::L;
+using c01::g_expect_continuous;
+using c01::viol;
+static void monitor(const e1::Event &e) { c01::ledger_monitor(e); }
 
 // ------------------------------------------------------------------ driver
 
